@@ -2,6 +2,7 @@
 import base64 as _b64, hashlib, os, sys, urllib.parse, zlib
 sys.path.insert(0, os.path.dirname(os.path.abspath(__file__)))
 import extract as _extract
+import refimpl as _ref
 import vlib
 
 ID = 'C19'
@@ -32,6 +33,8 @@ TRUSTED = [
     'reference definitions in lean/TboxModel/C19/Spec.lean (bitwise CRC from the polynomial, GF(2^8) S-box, RFC 1321 schedule '
     'with T[i] from sin, RFC 4648 alphabet) are my transcription of the standards; python zlib/hashlib/base64/urllib are a second, '
     'supporting reference carried in the op lines (ref=…)',
+    'props/C19/refimpl.py: pure-Python AES-128 key schedule / cipher and MD5 internals written from the standards, used by the generator to derive inputs '
+    'from the state an object caches (round keys, chaining state, buffer contents); expected values still come from Spec.lean',
     'out-of-bounds accesses are explicit `oob` outcomes of the models; on the implementation they are observed by ASan (heap '
     'blocks of exactly the advertised size) and UBSan (-fsanitize=bounds on the constant tables)',
 ]
@@ -45,6 +48,8 @@ ASSUMPTIONS = ['Serializer/Deserializer: buffer sizes below 2^64; the size_t com
                'MD5: one update call is shorter than 2^61 bytes (plain_text_len << 3 in a 64-bit size_t); the >= 512 MiB single-update '
                'case fixed by C19-05 is in the corpus (expected digest from python hashlib: the list model cannot evaluate 2^29 bytes); '
                'Gen.md5CarryWide records which carry comparison is in the source and theorem carry_is_narrow requires the repaired one',
+               'AES histories: an object built with AES(nullptr) is not used before its first setKey (it would read uninitialised round keys); '
+               'bytes of an output buffer behind the returned count (b64.dec2 rest=, si.buf buf=) are M-class: inside the capacity given, not promised by the API',
                'AES: key and block are exactly 16 bytes (the model reads missing bytes as 0, the real code would read out of bounds)']
 RULE = ('one case = 1..12 codec operations from props/C19/plugin.py gen(): encode/decode/round-trip ops on byte strings of '
         'length 0..70 (all 256 byte values), capacities exact/one-short/zero/roomy, 64-bit values around every length boundary '
@@ -54,14 +59,22 @@ RULE = ('one case = 1..12 codec operations from props/C19/plugin.py gen(): encod
         'entry point at alignments 0..7, right-aligned against the ASan redzone and left-aligned after a canary, lengths 0..5,7..9,15..17,63..65, '
         'suffix @<R|L><in><out>; a third of the random cases carry a random placement), width families (ports around 2^16 / 2^31 / 2^32 / 2^63 / '
         '2^64, signed texts; (de)serializer sizes around 2^31 / 2^32 / 2^63 / 2^64; signed and floating stream operators), law families '
-        '(chained CRC, MD5 update/finish scripts run in a forked child so that the abort is observed, AES re-keying, Base64 C-string overloads)')
+        '(chained CRC, MD5 update/finish scripts run in a forked child so that the abort is observed, AES re-keying, Base64 C-string overloads). '
+        'Round 8: state-derived histories on ONE object (lesson g): aes.hist (AES(k0|nullptr) then any setKey/cipher/invcipher calls, a second object in turns; '
+        'next key = previous key, its transpose = memory image of w[0], its reverse, each of the 11 round keys in memory and FIPS order, one-byte neighbours, '
+        'previous input/output block), md5 / md5.two (pieces = chaining state bytes, pending buffer, padding + length block, after 55/56/63/64 buffered bytes; two '
+        'objects in turns), crc32.seq / crc16.seq (seed = previous result / its complement / 0 / all ones, data = bytes of the previous result), si.buf '
+        '(dump and parse at offsets of one buffer), b64.dec2 (decode into the buffer holding the previous output), ser.view (deserializer over the '
+        'serializer\'s own output, append after fetch, set_pos to the current / previous / end position), url.host2 (two parses into the same Url::Host object)')
 LEVEL_TEXT = ('Lean 4 theorems over hand-written models of the nine codec sources, all for every input: round trips (Base64 both '
               'decoders, scalable integer for every 64-bit value and capacity, hex strings all three readers, serializer for every '
               'field sequence, URL both modes, AES-128 invcipher∘cipher), advertised sizes, no out-of-bounds outcome for every input '
               'and capacity, rejection of every non-alphabet Base64 character, and equality with independently written definitions '
               'of the published algorithms: Base64 encoder = RFC 4648, table-driven CRC-16/32 = bitwise CRC, checksums = '
               'one\'s-complement sums, MD5 (any split into updates) = RFC 1321 (Spec.md5), AES-128 cipher and inverse cipher = '
-              'FIPS-197 (Spec.aesCipher / aesInvCipher), also after setKey on any object; chained CRC law (and the counterexample to the naive one), '
+              'FIPS-197 (Spec.aesCipher / aesInvCipher), for every HISTORY of setKey / cipher / invcipher calls on one object (under the last key; also two objects '
+              'in turns), the memcmp(w[0], key) skip shortcut refuted and the right-order one proved sound; CRC call sequences with derived seeds; scalable integers '
+              'self-delimiting inside a used buffer; two MD5 objects in turns; Base64 decode into a used buffer; URL host print/parse round trip; chained CRC law (and the counterexample to the naive one), '
               'MD5 object life cycle for every history and exactness of its 64-bit bit counter, signed stream operators, size_t bounds check = '
               'mathematical one, Base64 C-string overloads, URL port: accepted range, modulo-65536 narrowing as coded, print/parse round trip; '
               'tables regenerated from the source on every run; tied to the code on every '
@@ -307,6 +320,54 @@ def gen_aes(rng, ops):
 
 
 
+def gen_hist(rng, ops):
+    """random histories on one object; a third of the follow-up inputs are derived from the cached state"""
+    r = rng.random()
+    if r < 0.5:
+        k = rbytes(rng, 16) if rng.random() < 0.8 else bytes([rng.randrange(256)] * 16)
+        first = None if rng.random() < 0.25 else k
+        steps = [] if first is not None else [('k', k)]
+        for _ in range(rng.randrange(1, 7)):
+            q = rng.random()
+            if q < 0.45:
+                k = rng.choice(aes_derived_keys(k))[1] if rng.random() < 0.5 else rbytes(rng, 16)
+                steps.append(('k', k))
+            else:
+                steps.append((rng.choice('ed'), rbytes(rng, 16) if rng.random() < 0.7 else k))
+        if rng.random() < 0.3:        # a second object used in turns, keyed with keys derived from the first one's
+            kb = rng.choice(aes_derived_keys(k))[1]
+            extra = [('K', kb)] + [(rng.choice('EDK'), rng.choice([kb, k, rbytes(rng, 16)])) for _ in range(rng.randrange(1, 4))]
+            for e_ in extra[1:]: steps.insert(rng.randrange(len(steps) + 1), e_)
+            steps.insert(0, extra[0])
+        ops.append(aes_hist_op(first, steps))
+    elif r < 0.65:
+        x = rbytes(rng, rng.choice([0, 1, 55, 56, 63, 64, 65, rng.randrange(0, 130)]))
+        sim = _ref.Md5Sim().update(x)
+        tail = rng.choice([sim.state_bytes(), sim.pending(), bytes(sim.buffer), sim.padding(), sim.length_block(), sim.padding() + sim.length_block(), x, b''])
+        more = rbytes(rng, rng.choice([0, 1, 8, 64]))
+        ops.append('md5 %s %s %s ref=%s' % (hx(x), hx(tail), hx(more), hashlib.md5(x + tail + more).hexdigest()))
+        if rng.random() < 0.5:
+            ops.append('md5.two a:%s b:%s a:%s fa b:%s fb' % (hx(x), hx(tail), hx(tail), hx(more)))
+    elif r < 0.8:
+        w32 = rng.random() < 0.5
+        parts = ['%s %s' % (rng.choice('pnzf'), hx(rbytes(rng, rng.choice([0, 0, 1, 2, 4, 9])))) for _ in range(rng.randrange(1, 5))]
+        ops.append('%s %d %s %s' % ('crc32.seq' if w32 else 'crc16.seq', rng.choice([0, (1 << (32 if w32 else 16)) - 1, rng.getrandbits(32 if w32 else 16)]),
+                                   hx(rbytes(rng, rng.randrange(0, 12))), ' '.join(parts)))
+    elif r < 0.9:
+        size = rng.randrange(1, 24)
+        st = []
+        for _ in range(rng.randrange(1, 7)):
+            off = rng.randrange(0, size + 1)
+            st.append('d:%d:%d' % (rng.choice([0, 127, 128, 16512, rng.getrandbits(rng.choice([7, 14, 21, 35, 64]))]), off) if rng.random() < 0.5 else 'p:%d' % off)
+            if st[-1][0] == 'd' and rng.random() < 0.7: st.append('p:%d' % off)
+        ops.append('si.buf %s %s' % (hx(rbytes(rng, size) if rng.random() < 0.5 else bytes([rng.choice([0x80, 0xff, 0])]) * size), ' '.join(st)))
+    else:
+        x = rbytes(rng, rng.randrange(1, 12)); y = rbytes(rng, rng.randrange(1, 12))
+        t2 = bytearray(_b64.b64encode(y))
+        if rng.random() < 0.3: t2[rng.randrange(len(t2))] = rng.randrange(256)
+        ops.append('b64.dec2 %s %s %d' % (hx(_b64.b64encode(x)), hx(t2), rng.choice([len(x), len(y), max(len(x), len(y)), len(x) + 2])))
+
+
 def gen_misc(rng, ops):
     r = rng.random()
     if r < 0.2:
@@ -336,6 +397,9 @@ def gen_misc(rng, ops):
         t = bytearray(_b64.b64encode(x))
         if rng.random() < 0.5: t.insert(rng.randrange(len(t) + 1), 0)
         ops.append(rng.choice(['b64.decz %s %d' % (hx(t), len(x)), 'b64.declenz %s' % hx(t), 'b64.decapp %s %s' % (hx(t), hx(rbytes(rng, rng.randrange(0, 3))))]))
+        if rng.random() < 0.5:
+            mkh = lambda: rng.choice(HOSTS) + rng.choice(['', '', ':' + rng.choice(PORTS)])
+            ops.append('url.host2 %s %s' % (hx(mkh().encode()), hx(mkh().encode())))
 
 
 # ------------------------------------------------------------------------------------------ structured / adversarial families
@@ -729,6 +793,154 @@ def gen_laws(tier):
     for c in _batched(ops, 48):
         yield c
 
+
+# ------------------------------------------------------------------------------------------ state-derived inputs (round 8, lesson g)
+# Every object of the package that caches something derived from earlier calls is driven through multi-step histories on ONE
+# object in which the next input EQUALS or is DERIVED FROM each piece of that cached state, in each representation the code
+# keeps: AES (the previous key, its 4x4 transpose = the memory image of w[0], its byte reverse, each of the 11 round keys in
+# memory order and in FIPS order, keys differing from those in one byte), MD5 (chaining state bytes, pending buffer bytes,
+# the padding and length block, after exactly 55/56/63/64 buffered bytes; two objects in turns), CRC (seed = previous result,
+# its complement, 0, all ones; data = the previous result's bytes), scalable integer (parse what was just dumped into the
+# same buffer at an offset), Base64 (decode into the buffer that holds the previous output), (de)serializer (view of the
+# serializer's own output, append after fetch, set_pos to the current / previous / end position). Deterministic, both tiers.
+def flip(b, pos, x=0x01):
+    t = bytearray(b); t[pos] ^= x; return bytes(t)
+
+
+def aes_derived_keys(k):
+    """(name, key) pairs derived from what an object holding k caches"""
+    rk = _ref.aes_round_keys(k)
+    out = [('same', k), ('transpose', _ref.transpose16(k)), ('reverse', k[::-1]), ('transpose-reverse', _ref.transpose16(k)[::-1])]
+    for i in range(1, 11):
+        out.append(('rk%d-fips' % i, rk[i])); out.append(('rk%d-mem' % i, _ref.transpose16(rk[i])))
+    for pos in (0, 1, 4, 5, 15):
+        out.append(('flip%d' % pos, flip(k, pos))); out.append(('tflip%d' % pos, flip(_ref.transpose16(k), pos, 0x80)))
+    return out
+
+
+AES_BASE_KEYS = [bytes(range(16)), bytes.fromhex('2b7e151628aed2a6abf7158809cf4f3c'), bytes((i * 73 + 11) & 0xff for i in range(16)),
+                 bytes([7] * 16),                                            # symmetric: transpose = itself
+                 bytes.fromhex('00010203010405060205070803060809'),          # symmetric 4x4 matrix with distinct entries
+                 bytes.fromhex('000102030104050602050708030609ff')]          # symmetric but for one pair
+
+
+def aes_hist_op(k0, steps):
+    return 'aes.hist %s %s' % (hx(k0) if k0 is not None else '-', ' '.join('%s:%s' % (t, hx(v)) for t, v in steps))
+
+
+def gen_state_derived(tier):
+    ops = []
+    blk = bytes.fromhex('00112233445566778899aabbccddeeff'); z = bytes(16)
+    # ---- AES: K1, then a key derived from the object's cache, then back
+    for k1 in AES_BASE_KEYS:
+        ct1 = _ref.aes_encrypt(k1, blk)
+        for name, k2 in aes_derived_keys(k1):
+            ops.append(aes_hist_op(k1, [('e', blk), ('k', k2), ('e', blk), ('d', ct1), ('k', k1), ('e', z)]))
+            ops.append(aes_hist_op(None, [('k', k1), ('k', k2), ('d', blk), ('e', blk)]))
+        t = _ref.transpose16(k1)
+        ops.append(aes_hist_op(k1, [('k', t), ('e', blk), ('k', k1), ('e', blk), ('k', t), ('k', k1), ('k', t), ('d', blk), ('e', blk)]))
+        ops.append(aes_hist_op(k1, [('k', k1), ('k', k1), ('e', blk), ('k', t), ('k', t), ('e', blk), ('k', _ref.transpose16(t)), ('e', blk)]))
+        # the key is the previous OUTPUT / the previous input block
+        ops.append(aes_hist_op(k1, [('e', blk), ('k', ct1), ('e', blk), ('k', blk), ('e', ct1), ('k', _ref.transpose16(ct1)), ('d', ct1)]))
+        # walk down the key schedule: every round key becomes the next key, in both layouts
+        rk = _ref.aes_round_keys(k1)
+        ops.append(aes_hist_op(k1, sum(([('k', rk[i]), ('e', blk)] for i in range(1, 11)), [])))
+        ops.append(aes_hist_op(None, sum(([('k', _ref.transpose16(rk[i])), ('d', blk)] for i in range(0, 11)), [])))
+        # two objects in turns: B is keyed with what A caches (and vice versa) between A's calls
+        ops.append(aes_hist_op(k1, [('e', blk), ('K', t), ('e', blk), ('E', blk), ('k', t), ('K', k1), ('e', blk), ('E', blk), ('D', ct1), ('d', ct1)]))
+        ops.append(aes_hist_op(None, [('K', k1), ('k', rk[1]), ('E', blk), ('e', blk), ('K', rk[1]), ('k', k1), ('E', blk), ('e', blk)]))
+    # ---- MD5: pieces derived from the object's state after x
+    for ln in (0, 1, 8, 55, 56, 57, 63, 64, 65, 119, 120, 127, 128):
+        x = _pdata(ln, 5)
+        sim = _ref.Md5Sim().update(x)
+        st, pend, pad, lb = sim.state_bytes(), sim.pending(), sim.padding(), sim.length_block()
+        for tail in ([st], [pend], [bytes(sim.buffer)], [pad, lb], [pad, lb, b'a'], [pad + lb], [x], [hashlib.md5(x).digest()], [pad[:1]], [lb],
+                     [b''], [b'\x00'], [bytes(8)], [bytes(9)], [bytes(64)], [st, pend, st]):
+            pieces = [x] + tail
+            whole = b''.join(pieces)
+            ops.append('md5 %s ref=%s' % (' '.join(hx(p_) for p_ in pieces), hashlib.md5(whole).hexdigest()))
+        y = _pdata(ln // 2 + 3, 6)
+        ops.append('md5.two a:%s b:%s a:%s b:%s fa b:%s fb' % (hx(x), hx(y), hx(st), hx(pend), hx(x)))
+        ops.append('md5.two a:%s b:%s fb a:%s fa' % (hx(x), hx(x), hx(pad + lb)))
+        ops.append('md5.two b:%s a:%s a:%s b:%s fa fb' % (hx(x[:ln // 2]), hx(x[:ln // 2]), hx(x[ln // 2:]), hx(x[ln // 2:])))
+        ops.append('md5.two fa b:%s fb' % hx(x)); ops.append('md5.two a:%s fa' % hx(x))
+    # ---- CRC: seeds derived from the previous result, data derived from the previous result
+    for ln in (0, 1, 2, 3, 4, 5, 8, 9, 33):
+        x = _pdata(ln, 7)
+        for seed in (0xffffffff, 0, 0x12345678):
+            r1 = zlib.crc32(x, seed ^ 0xffffffff) & 0xffffffff
+            le, be = r1.to_bytes(4, 'little'), r1.to_bytes(4, 'big')
+            ops.append('crc32.seq %d %s n %s n %s' % (seed, hx(x), hx(x[::-1]), hx(b'\x01')))
+            ops.append('crc32.seq %d %s p %s n %s z %s f %s' % (seed, hx(x), hx(x), hx(le), hx(be), hx(x)))
+            ops.append('crc32.seq %d %s n %s p - n - z - f -' % (seed, hx(x), hx(le)))
+            ops.append('crc32.seq %d %s n - n - p - p -' % (seed, hx(x)))
+            ops.append('crc32 %s %d' % (hx(x + le), seed)); ops.append('crc32 %s %d' % (hx(le), r1)); ops.append('crc32 %s %d' % (hx(x), r1 ^ 0xffffffff))
+        for seed in (0xffff, 0, 0x1d0f):
+            r1 = _ref.crc16(x, seed)
+            le, be = r1.to_bytes(2, 'little'), r1.to_bytes(2, 'big')
+            ops.append('crc16.seq %d %s p %s p %s' % (seed, hx(x), hx(x[::-1]), hx(b'\x01')))
+            ops.append('crc16.seq %d %s n %s p %s z %s f %s' % (seed, hx(x), hx(x), hx(be), hx(le), hx(x)))
+            ops.append('crc16.seq %d %s p %s p - n - z - f -' % (seed, hx(x), hx(be)))
+            ops.append('crc16 %s %d' % (hx(x + be), seed)); ops.append('crc16 %s %d' % (hx(be), r1)); ops.append('crc16 %s %d' % (hx(x), r1 ^ 0xffff))
+    # ---- scalable integer: parse what was just dumped into the same buffer, at the same / neighbouring offsets
+    for fill in (0xA5, 0x00, 0x80, 0xff, 0x7f):
+        for v in (0, 127, 128, 16511, 16512, 0x20407F + 1, 0x810204081020407F, 0x810204081020407F + 1, (1 << 64) - 1):
+            need = 1
+            while need < 10 and v > SI_TABLE_MAX[need - 1]: need += 1
+            for off in (0, 1, 3):
+                size = off + need + 2
+                buf = bytes([fill]) * size
+                st = ['d:%d:%d' % (v, off), 'p:%d' % off, 'p:%d' % (off + 1), 'p:%d' % max(off - 1, 0), 'd:%d:%d' % (v ^ 1, off + need), 'p:%d' % off,
+                      'p:%d' % (off + need), 'd:%d:%d' % (v, off + 1), 'p:%d' % off, 'p:%d' % (off + 1), 'p:%d' % size, 'd:%d:%d' % (v, size),
+                      'd:%d:%d' % (v, size - need + 1), 'd:%d:%d' % (v, size - need), 'p:%d' % (size - need)]
+                ops.append('si.buf %s %s' % (hx(buf), ' '.join(st)))
+    vs = [0, 127, 128, 16511, 16512, 2113663, 2113664, (1 << 32), (1 << 63), (1 << 64) - 1]
+    st, off = [], 0
+    for v in vs:                      # a stream of encodings, then parse each where it starts
+        need = 1
+        while need < 10 and v > SI_TABLE_MAX[need - 1]: need += 1
+        st.append('d:%d:%d' % (v, off)); off += need
+    offs, o2 = [], 0
+    for v in vs:
+        need = 1
+        while need < 10 and v > SI_TABLE_MAX[need - 1]: need += 1
+        offs.append(o2); o2 += need
+    ops.append('si.buf %s %s' % (hx(b'\xff' * off), ' '.join(st + ['p:%d' % o for o in offs] + ['p:%d' % off])))
+    ops.append('si.buf %s %s' % (hx(b'\x80' * (off - 1)), ' '.join(st + ['p:%d' % o for o in offs])))      # last one does not fit
+    # ---- Url::Host: the second parse goes into the object the first one filled (and: print(h) parsed into a used object)
+    firsts = ['u:p@x:1', 'u@x', 'x:8080', 'x', '', 'a%40b:c%3Ad@e:65535', 'u:p@x:99999999999', 'u:%zz@x', '%zz@x:1', 'u:p@%zz', 'u:p@x:', '@x', ':p@x']
+    seconds = ['h', 'h:80', 'h:0', '', ':81', 'v@h', 'v:q@h:2', 'v:@h', 'h:abc', '%zz', '%zz:80', 'v:%zz@h', 'h:65616', 'v@', '@', ':', 'u:p@x:1']
+    for f1 in firsts:
+        for s2 in seconds:
+            ops.append('url.host2 %s %s' % (hx(f1.encode()), hx(s2.encode())))
+    for (u, pw, h, port) in (('', '', 'h', 0), ('', '', 'h', 80), ('v', '', 'h', 0), ('v', 'q', 'h', 8), ('', '', '', 0), ('', '', '', 9), ('v', 'q w', 'h.x', 65535)):
+        t = (u + ((':' + pw) if pw else '') + '@' if u else '') + h + ((':%d' % port) if port else '')
+        for f1 in firsts[:6]:
+            ops.append('url.host2 %s %s' % (hx(f1.encode()), hx(t.encode())))
+    # ---- Base64: decode into the buffer holding the previous output
+    for ln in (1, 2, 3, 4, 5, 6, 9, 16):
+        x = _pdata(ln, 9); e1 = _b64.b64encode(x)
+        for t2 in (e1, _b64.b64encode(x[::-1]), _b64.b64encode(x[:ln - 1]) if ln > 1 else b'QQ==', _b64.b64encode(x + b'\x01'), _b64.b64encode(_b64.b64encode(x)[:ln]),
+                   e1[:-1] + b'*', b'*' + e1[1:], e1[:-1], b'====', b'', x):
+            for cap in (ln, ln + 1, ln + 3):
+                ops.append('b64.dec2 %s %s %d' % (hx(e1), hx(t2), cap))
+        ops.append('b64.dec2 %s %s %d' % (hx(_b64.b64encode(x + b'\x01\x02')), hx(e1), ln + 2))
+    # every third history also runs at a memory placement (lesson c): unaligned, against the redzone
+    ops = [o + ' @%s%d%d' % ('RL'[i % 2], i % 8, (i * 3 + 1) % 8) if i % 3 == 1 else o for i, o in enumerate(ops)]
+    for c in _batched(ops, 48):
+        yield c
+    # ---- serializer / deserializer: view of the own output, append after fetch, set_pos to current / previous / end position
+    for en in 'bl':
+        for mode in ('ser.raw 12 %s' % en, 'ser.vec - %s' % en, 'ser.vec a1a2a3 %s' % en):
+            yield [mode, 'ser.int 4 16909060', 'ser.view %s' % en, 'des.int 4', 'des.int 1', 'ser.int 2 1286', 'des.int 2', 'des.check 1', 'ser.view %s' % en,
+                   'des.setpos 4', 'des.int 2', 'des.setpos 4', 'des.setpos 5', 'des.int 2', 'des.setpos 6', 'des.setpos 5', 'des.int 1', 'des.setpos 5', 'des.skip 1',
+                   'des.setpos 0', 'des.int 8', 'des.int 4', 'des.int 2', 'des.int 1', 'ser.pod 0708', 'ser.view %s' % ('l' if en == 'b' else 'b'), 'des.int 4',
+                   'des.pod 2', 'des.nocopy 2', 'des.nocopy 1', 'ser.bytes 090a0b0c', 'ser.int 1 13', 'ser.view %s' % en, 'des.skip 8', 'des.bytes 4', 'des.check 0',
+                   'des.check 1', 'des.setpos 11', 'des.int 1', 'des.setpos 11', 'des.int 2', 'des.int 1']
+        yield ['des.new 0102030405060708 %s' % en, 'des.int 2', 'des.setpos 2', 'des.int 2', 'des.setpos 2', 'des.int 2', 'des.setpos 0', 'des.int 2', 'des.setpos 7',
+               'des.int 2', 'des.setpos 7', 'des.int 1', 'des.setpos 8', 'des.setpos 7', 'des.skip 1', 'des.setpos 8', 'des.check 0', 'des.int 1', 'des.skip 0',
+               'des.setpos 3', 'des.endian %s' % ('l' if en == 'b' else 'b'), 'des.int 4', 'des.setpos 3', 'des.endian %s' % en, 'des.int 4', 'des.nocopy 1', 'des.nocopy 1']
+
 def gen(rng, tier):
     n = 500 if tier == 'quick' else 6000
     # malformed stream: both sides answer bad-op
@@ -756,6 +968,8 @@ def gen(rng, tier):
         yield c
     for c in gen_laws(tier):
         yield c
+    for c in gen_state_derived(tier):
+        yield c
     vals = si_values(rng)
     if tier == 'thorough':
         # exhaustive small scope: every byte value at every position of two valid quads, exact capacity
@@ -782,7 +996,7 @@ def gen(rng, tier):
         for b0 in range(0, 256, 16):
             yield ['url.rt %02x 0' % b for b in range(b0, b0 + 16)] + ['url.enc %02x 1' % b for b in range(b0, b0 + 16)] + \
                   ['hex.rt %02x 1 -' % b for b in range(b0, b0 + 16)] + ['url.dec 25%02x41' % b for b in range(b0, b0 + 16)]
-    gens = [gen_b64, gen_b64, lambda r, o: gen_si(r, o, vals), gen_hex, gen_ser, gen_ser, gen_crc, gen_url, gen_md5, gen_aes, gen_misc]
+    gens = [gen_b64, gen_b64, lambda r, o: gen_si(r, o, vals), gen_hex, gen_ser, gen_ser, gen_crc, gen_url, gen_md5, gen_aes, gen_misc, gen_hist]
     for _ in range(n):
         ops = []
         for _ in range(rng.choice([1, 2, 4, 8])):
@@ -797,7 +1011,8 @@ NT_TAGS = ('b64-cap-exact', 'b64-cap-short', 'b64-invalid-char', 'b64-hi-byte', 
            'si-parse-cont9', 'si-parse-cont1', '-unterminated', 'si-dump-', 'hex-decbuf-exc', 'hex-decvec-', 'ser-rt-',
            'des-int', 'ser-int', 'url-dec-exc', 'url-dec-escapes', 'md5-pieces2', 'md5-pieces3', 'md5-pieces4', 'md5-pieces5',
            'md5-pieces6', 'md5-pieces7', 'md5-pieces8', 'md5-pieces9', 'md5-len-mod64-ge56',
-           'b64-cstr', 'b64-append', 'des-check-', 'ser-big', 'crc-chain-', 'url-host-', 'url-mkhost-', 'md5-seq-', 'aes-seq-')
+           'b64-cstr', 'b64-append', 'des-check-', 'ser-big', 'crc-chain-', 'url-host-', 'url-mkhost-', 'md5-seq-', 'aes-seq-',
+           'aes-hist-', 'aes-rekey-', 'url-host2-', 'crc-seq-', 'si-buf-', 'md5-two-', 'b64-dec2', 'ser-view')
 
 
 def nontrivial(ops, model_lines):
